@@ -1,6 +1,7 @@
 import PlasVerif.Proofs.Lists
 import PlasVerif.Proofs.Arrays
 import PlasVerif.Proofs.Colspec
+import PlasVerif.Proofs.ListNumbers
 /-!
 # C10 — Lists and tables keep their shape: items, rows, cells and spans as written
 
@@ -123,6 +124,24 @@ example :
       fun r => r.map fun c => (c.items.length, c.marks.bottom)) = [[(1, true)]] := by
   decide
 
+/-- Rule commands mark the borders of exactly the ADJACENT rows, for every table and every placement of
+    rule-only rows: the index-and-mutation loop of `Array.applyBorders` computes exactly the structural
+    `specTable` — a rule-only row marks the bottom of the nearest content row above it (nothing else)
+    and disappears, a rule-only first row marks the top of the second row, a content row applies the rules
+    written in it to itself and takes the declared column styles, and the content rows keep their order. -/
+theorem table_rules_adjacent (spec : List ColStyle) (rows : List RowR) :
+    applyBordersTable spec rows = specTable spec rows :=
+  applyBordersTable_eq_spec spec rows
+
+/-- non-vacuity: `a \\ \hline \\ b \\ \hline` — the first `\hline` is the bottom of row a only, the last one the
+    bottom of row b only -/
+example :
+    let cell (ns : List Node) : CellR := { colspan := none, own := none, items := ns }
+    let rows := [[cell [mkT 4 (.text 97)]], [cell [mkT 4 .hline]], [cell [mkT 4 (.text 98)]], [cell [mkT 4 .space, mkT 4 .hline]]]
+    ((specTable [] rows).map fun r => r.map fun c => (c.marks.top, c.marks.bottom)) = [[(false, true)], [(false, true)]] ∧
+    ((specTable [] (rows.take 3)).map fun r => r.map fun c => (c.marks.top, c.marks.bottom)) = [[(false, true)], [(false, false)]] := by
+  decide
+
 /-- Formatting set in one cell does not leak into the next: a declaration (`\bfseries`, an
     environment token without end) written in a cell holds exactly what follows it in that cell
     and stops at the `&` or `\\` (whose context depth is lower), which stays on the stream. -/
@@ -135,6 +154,21 @@ theorem cell_format_isolated (D ty : Nat) (bs : Blocks) (stop : Node) (rest : St
 example : digestNode 9 (mkT 5 (.begin_ .env 5)) [mkT 5 (.text 97), mkT 4 .amp, mkT 4 .cell, mkT 4 (.text 98)]
     = some (.mk ⟨5, .begin_ .env 5⟩ [mkT 5 (.text 97)], [mkT 4 .amp, mkT 4 .cell, mkT 4 (.text 98)]) := by
   exact cell_format_isolated 4 5 (.cons (.leaf (.text 97)) .nil) (mkT 4 .amp) _ (by decide) (Or.inl rfl) (Nat.le_refl _) 9 (by decide)
+
+/-- `Array.linkCells` (repaired): a spanning cell is linked to the declared columns it really covers —
+    from its first column (the spans of the cells before it added up) to that plus its span minus one —
+    and gets no link when the specification is too short. -/
+theorem link_cells_endpoints (ncols : Nat) (cells : List CellR) :
+    linkRow ncols 0 cells = linkSpec ncols 0 cells :=
+  linkRow_eq ncols cells 0
+
+/-- D32 witness, `\multicolumn{2}{c}{a} & \multicolumn{2}{c}{b}` under `{lcrp{1cm}}`: the pinned code links the
+    second cell to columns 1..2 (its index in the row), the repaired code and the Spec to columns 2..3. -/
+theorem link_cells_asIs_counterexample :
+    let row : List CellR := [⟨some 2, none, [], {}, ⟨0, false, false⟩⟩, ⟨some 2, none, [], {}, ⟨0, false, false⟩⟩]
+    linkRowAsIs 4 0 row = [some (0, 1), some (1, 2)] ∧ linkRow 4 0 row = [some (0, 1), some (2, 3)] ∧
+    linkSpec 4 0 row = [some (0, 1), some (2, 3)] := by
+  decide
 
 /-- `numCols`: when every row's spans sum to at most `n` and one row is full, the table has `n` columns. -/
 theorem full_row_spans_sum (rows : List RowR) (n : Nat)
@@ -224,5 +258,67 @@ theorem colspec_asIs_counterexample :
     (match compileColspec 20 [.ch 64, .bg, .eg, .ch 108, .ch 124, .ch 99] with
       | .ok cols => cols.length | .error _ => 0) = 2 := by
   decide
+
+
+/-! ### list nesting depth, item counters and positions (`List.invoke`, `List.item.invoke/postArgument`) -/
+
+section numbering
+open PlasVerif.Model.ListNumbering PlasVerif.Spec.ListNumbers PlasVerif.Proofs.ListNumbers
+
+/-- on the table regenerated from the live context every list counter is reset (if at all) by an
+    EARLIER list counter — all the numbering theorems need about `Counter.resetby` — and there are four -/
+theorem enum_resets_downward :
+    Downward PlasVerif.Generated.ListCounters.resetBy ∧ nCounters = 4 := by
+  constructor
+  · show downward _ = true
+    decide
+  · decide
+
+/-- Every item of every list of a forest nested at most four deep (any mix of labelled and
+    unlabelled items, any number of lists and items) is numbered by the counter of its nesting
+    level and gets as position its 1-based rank among the unlabelled items of its own list —
+    nested lists in earlier items do not disturb it; a labelled item does not count. -/
+theorem item_positions (lists : LLists) (hfit : lists.fits 0 = true) :
+    (run lists.events fresh).1 = lists.expect 0 := by
+  obtain ⟨s1, _, h⟩ := lists_run enum_resets_downward.1 lists 0 _ fresh (by omega) hfit fresh_at
+  have := h []
+  simpa [run] using congrArg Prod.fst this
+
+/-- …and after the forest the nesting depth is back to 0 and every list counter is 0 again: the next
+    list (or the next document processed with the same state) starts from scratch.  More generally,
+    from any state between lists at level `d` the state returns to level `d` with the counters below
+    `d` untouched. -/
+theorem list_state_restored (lists : LLists) (d : Nat) (base : Nat → Nat) (s : PlasVerif.Model.ListNumbering.St) (hd : d ≤ 4)
+    (hfit : lists.fits d = true) (h : At d base s) :
+    At d base (run lists.events s).2 ∧ (run lists.events s).1 = lists.expect d := by
+  obtain ⟨s1, hs1, hr⟩ := lists_run enum_resets_downward.1 lists d base s hd hfit h
+  have := hr []
+  simp only [List.append_nil, run] at this
+  rw [this]
+  exact ⟨hs1, by simp⟩
+
+/-- non-vacuity: `enumerate[ a, [T] b, c {itemize[ d, e ]}, f ]  itemize[ g ]` -/
+example :
+    let inner := LItems.cons false .nil (.cons false .nil .nil)
+    let outer := LItems.cons false .nil (.cons true .nil (.cons false (.cons inner .nil) (.cons false .nil .nil)))
+    let forest := LLists.cons outer (.cons (.cons false .nil .nil) .nil)
+    forest.fits 0 = true ∧
+    (run forest.events fresh).1 = [⟨0, 1⟩, ⟨4, 2⟩, ⟨0, 2⟩, ⟨1, 1⟩, ⟨1, 2⟩, ⟨0, 3⟩, ⟨0, 1⟩] := by
+  intro inner outer forest
+  exact ⟨by decide, by rw [item_positions forest (by decide)]; decide⟩
+
+example : (run (LLists.cons (.cons false .nil .nil) .nil).events fresh).2.depth = 0 :=
+  (list_state_restored (LLists.cons (.cons false .nil .nil) .nil) 0 _ fresh (by omega) (by decide) fresh_at).1.depth
+
+/-- Observation (outside the four levels LaTeX provides, hence outside `fits`): the items of a fifth
+    nesting level fall into the caught `IndexError`, keep the class defaults (`enumi`, position 0) and
+    step the OUTERMOST counter, so the outer list's next item is numbered 3 instead of 2 (kernel-checked on the
+    model; LaTeX itself stops with "Too deeply nested"). -/
+theorem fifth_level_asIs_witness :
+    (run [.begin_, .item false, .begin_, .begin_, .begin_, .begin_, .item false, .end_, .end_, .end_, .end_,
+          .item false, .end_] fresh).1 = [⟨0, 1⟩, ⟨0, 0⟩, ⟨0, 3⟩] := by
+  decide
+
+end numbering
 
 end PlasVerif.Properties.C10
